@@ -8,6 +8,9 @@ import "io"
 type mFSM struct {
 	calls []mFSMCall
 	restoreFail bool
+	// futures of later entries that must not be answered before this FSM has applied the earlier ones
+	watch []*logFuture
+	early bool
 }
 
 type mFSMCall struct {
@@ -21,6 +24,11 @@ type mFSMCall struct {
 type mFSMResp struct{ v uint64 }
 
 func (f *mFSM) Apply(l *Log) interface{} {
+	for _, w := range f.watch {
+		if w.log.Index > l.Index && w.responded {
+			f.early = true // a later future was answered before this entry reached the FSM
+		}
+	}
 	v := vU64("fsm.resp")
 	f.calls = append(f.calls, mFSMCall{op: opFSMApply, index: l.Index, term: l.Term, typ: l.Type, data: l.Data, resp: v})
 	return mFSMResp{v}
